@@ -53,6 +53,10 @@ type Violation struct {
 	Decisions []Decision
 }
 
+// RepoPrefix is the directory prefix of the repository's source files (site labels are
+// relative to it).
+var RepoPrefix = "/repo/"
+
 type pathEnd struct{ reason string }
 
 type goPanic struct{ msg string }
@@ -155,6 +159,7 @@ type Machine struct {
 	hashLogs   map[*value][]*term.Term
 	OnlyAsserts  []string // assertion-id prefixes that count (empty = all)
 	IgnorePanics bool     // panics/deadlocks are another property's subject
+	ZoneOnly   bool // crash points and schedule exploration only while the harness's record "zone" is 1
 	StubS2     bool // always use the stub framing for s2 (never the real encoder)
 	SymIndex   bool // symbolic indices into scalar slices stay symbolic (ite chains) instead of being case-split
 	NoSummaries    bool
@@ -1086,10 +1091,10 @@ func (m *Machine) posSite(fr *frame, pos token.Pos) string {
 		return ""
 	}
 	p := fr.fn.Prog.Fset.Position(pos)
-	if !strings.HasPrefix(p.Filename, "/repo/") {
+	if !strings.HasPrefix(p.Filename, RepoPrefix) {
 		return ""
 	}
-	return fmt.Sprintf("%s:%d:%d", strings.TrimPrefix(p.Filename, "/repo/"), p.Line, p.Column)
+	return fmt.Sprintf("%s:%d:%d", strings.TrimPrefix(p.Filename, RepoPrefix), p.Line, p.Column)
 }
 
 func (m *Machine) noteSite(fr *frame, instr ssa.Instruction) {
